@@ -66,3 +66,18 @@ Example proper_order_accepted :
   accepts put_step put_init [(OpenExcl ex_info, RUnit); (WriteFd ex_content, RUnit); (CloseFd, RUnit);
                              (Move ($"/home/u/a") ($"/t/files/a"), RUnit)] <> None.
 Proof. vm_compute. discriminate. Qed.
+
+(* ---- the file-system model, run (World.wapply): a complete put in a small world ---- *)
+Definition ex_w0 : world := add_dirs (fun _ => None) [$"/t"; $"/t/info"; $"/t/files"; $"/home"; $"/home/u"].
+Definition ex_s0 : wstate := mkw (upd ex_w0 ($"/home/u/a") (Some (NFile [104; 105]))) None.
+Example put_in_the_model :
+  match wapply_all ex_s0 [(OpenExcl ex_info, RUnit); (WriteFd ex_content, RUnit); (CloseFd, RUnit);
+                          (Move ($"/home/u/a") ($"/t/files/a"), RUnit)] with
+  | Some s => (wfs s ex_info, wfs s ($"/t/files/a"), wfs s ($"/home/u/a"))
+  | None => (None, None, None)
+  end = (Some (NFile ex_content), Some (NFile [104; 105]), None).
+Proof. vm_compute. reflexivity. Qed.
+(* a move onto something that exists is outside the deterministic fragment; a second exclusive create contradicts the model *)
+Example second_create_contradicts_the_model :
+  wapply_all ex_s0 [(OpenExcl ex_info, RUnit); (OpenExcl ex_info, RUnit)] = None.
+Proof. vm_compute. reflexivity. Qed.
